@@ -298,6 +298,37 @@ Theorem zero_first_exact d (v : vec R) k :
   (forall i, 0 <= i < d -> v i = 0') -> 0 <= k -> zero_first R d v k = v k.
 Proof. intros H Hk. unfold zero_first. destruct (k <? d) eqn:?; [symmetry; apply H; lia|reflexivity]. Qed.
 
+(* zeroing by POSITION leaves the eigenvalues unchanged iff the first d of them are null ... *)
+Theorem zero_first_iff d (n : nat) (v : vec R) :
+  (forall k, 0 <= k < Z.of_nat n -> zero_first R d v k = v k)
+  <-> (forall k, 0 <= k < Z.of_nat n -> k < d -> v k = 0').
+Proof.
+  unfold zero_first. split; intros H k Hk.
+  - intros Hd. specialize (H k Hk). destruct (k <? d) eqn:E; [symmetry; exact H|lia].
+  - destruct (k <? d) eqn:E; [symmetry; apply H; lia|reflexivity].
+Qed.
+
+(* ... and when EXACTLY the first d are the null ones, the zeroed positions are exactly the null space *)
+Theorem zero_first_null_space d (n : nat) (v : vec R) :
+  (forall k, 0 <= k < Z.of_nat n -> (v k = 0' <-> k < d)) ->
+  forall k, 0 <= k < Z.of_nat n ->
+  zero_first R d v k = v k /\ (zero_first R d v k = 0' <-> k < d).
+Proof.
+  intros H k Hk. unfold zero_first. destruct (k <? d) eqn:E.
+  - split; [symmetry; apply H; [exact Hk|lia]|]. split; intros; [lia|reflexivity].
+  - split; [reflexivity|]. apply H, Hk.
+Qed.
+
+(* zeroing by MAGNITUDE is harmless iff nothing genuine is small *)
+Theorem zero_below_iff (small : T R -> bool) (n : nat) (v : vec R) :
+  (forall k, 0 <= k < Z.of_nat n -> zero_below R small v k = v k)
+  <-> (forall k, 0 <= k < Z.of_nat n -> small (v k) = true -> v k = 0').
+Proof.
+  unfold zero_below. split; intros H k Hk.
+  - intros Hs. specialize (H k Hk). rewrite Hs in H. symmetry. exact H.
+  - destruct (small (v k)) eqn:E; [symmetry; apply H; assumption|reflexivity].
+Qed.
+
 (* ---------------------------------------------------------------- Kronecker mixed product *)
 (* kron(A, B) @ kron(C, D) = kron(A @ C, B @ D) for A (m x n), B (p x q), C (n x k), D (q x l) *)
 Theorem kron_mixed (n q : nat) (p l : Z) (A B C D : mat R) r s :
@@ -425,4 +456,28 @@ Proof.
   split; intros x y Hx Hy;
     assert (Ex : x = 0 \/ x = 1) by lia; assert (Ey : y = 0 \/ y = 1) by lia;
     destruct Ex, Ey; subst x y; vm_compute; reflexivity.
+Qed.
+
+(* a magnitude threshold zeroes a GENUINE eigenvalue: eigenvalues (0, 0, 3, 50) of a penalty with
+   diff_order = 2 (exactly the first two are null), threshold 10.  Zeroing by position is exact,
+   zeroing by magnitude changes the third eigenvalue and with it the penalty the system is solved
+   with (a = 4 row bases, c = 1 column basis, lam = 1). *)
+Definition wit_vals : vec ZO := of_list [0; 0; 3; 50].
+Definition wit_small (x : Z) : bool := Z.abs x <? 10.
+
+Lemma threshold_zeroing_wrong :
+  (forall k, 0 <= k < 4 -> (wit_vals k = 0 <-> k < 2)) /\
+  (forall k, 0 <= k < 4 -> zero_first ZO 2 wit_vals k = wit_vals k) /\
+  zero_below ZO wit_small wit_vals 2 <> wit_vals 2 /\
+  penalty ZO std_cfg 4 1 1 1 (zero_below ZO wit_small wit_vals) (of_list [0]) 2
+  <> penalty ZO std_cfg 4 1 1 1 (zero_first ZO 2 wit_vals) (of_list [0]) 2.
+Proof.
+  split; [|split; [|split]].
+  - intros k Hk. assert (E : k = 0 \/ k = 1 \/ k = 2 \/ k = 3) by lia.
+    destruct E as [E | [E | [E | E]]]; subst k; split; intro Hq;
+      first [lia | reflexivity | (vm_compute in Hq; discriminate Hq)].
+  - intros k Hk. assert (E : k = 0 \/ k = 1 \/ k = 2 \/ k = 3) by lia.
+    destruct E as [E | [E | [E | E]]]; subst k; reflexivity.
+  - vm_compute. discriminate.
+  - vm_compute. discriminate.
 Qed.
